@@ -121,7 +121,19 @@ class Parser:
                 self.eat(";")
                 consts[name] = (ty, e)
             elif self.at("fn"):
-                f = self.fn(test_only)
+                # a function the subset cannot express is only a problem if the blend functions reach it (translate.visit)
+                start = self.i
+                name = self.t[self.i + 1][1]
+                try:
+                    f = self.fn(test_only)
+                except Unsupported as e:
+                    self.i = start
+                    while not self.at("{"):
+                        if self.peek()[0] == "eof":
+                            raise
+                        self.eat()
+                    self.skip_balanced("{", "}")
+                    f = {"name": name, "unsupported": str(e)}
                 if f is not None:
                     if f["name"] in fns:
                         raise Unsupported("duplicate fn " + f["name"])
@@ -523,6 +535,8 @@ class Tr:
                 return self.expr(self.consts[n][1], {}, self.consts[n][0])
             if n in self.fns:
                 f = self.fns[n]
+                if "unsupported" in f:
+                    raise Unsupported("function %s (needed by the blend functions): %s" % (n, f["unsupported"]))
                 self.calls.add(n)
                 return [], cq(n), ("fn", [p[1] for p in f["params"]], f["ret"])
             raise Unsupported("unknown name " + n)
@@ -709,6 +723,8 @@ class Tr:
             fty = env[name]
         elif name in self.fns:
             fn = self.fns[name]
+            if "unsupported" in fn:
+                raise Unsupported("function %s (needed by the blend functions): %s" % (name, fn["unsupported"]))
             fty = ("fn", [p[1] for p in fn["params"]], fn["ret"])
             self.calls.add(name)
         else:
@@ -1005,14 +1021,23 @@ def dispatch_tables(srcdir):
             if not variant:
                 raise Unsupported("parse_blend_mode: id %s is refused" % pat)
             ids[int(pat)] = variant
-    fil = open(srcdir + "/file.rs").read()
-    m = re.search(r"fn blend_mode_to_blend_fn\(mode: BlendMode\) -> BlendFn \{(.*?)\n\}", fil, re.S)
-    if not m:
-        raise Unsupported("blend_mode_to_blend_fn not found in file.rs")
-    body = re.sub(r"//[^\n]*", "", m.group(1))
-    arms = re.findall(r"BlendMode::(\w+)\s*=>\s*Box::new\(blend::(\w+)\)", body)
-    if len(arms) != body.count("=>"):
-        raise Unsupported("blend_mode_to_blend_fn has an arm of an unsupported form")
+    # the BlendMode -> blend function table: a function `fn f(x: BlendMode) -> T { match x { BlendMode::V => <fn>, ... } }` in
+    # any source file; an arm may name the function as `Box::new(blend::f)`, `blend::f`, `crate::blend::f` or plain `f`
+    import glob
+    arms = None
+    for path in sorted(glob.glob(srcdir + "/*.rs")):
+        txt = re.sub(r"//[^\n]*", "", open(path).read())
+        for m in re.finditer(r"fn\s+\w+\(\s*(\w+)\s*:\s*BlendMode\s*\)\s*->\s*\w+\s*\{\s*match\s+(\w+)\s*\{(.*?)\n\s*\}\s*\}", txt, re.S):
+            if m.group(1) != m.group(2):
+                continue
+            body = m.group(3)
+            found = re.findall(r"BlendMode::(\w+)\s*=>\s*(?:Box::new\(\s*)?(?:(?:crate::)?blend::)?(\w+)\s*\)?\s*(?:,|$)", body)
+            if found and len(found) == body.count("=>"):
+                if arms is not None:
+                    raise Unsupported("more than one BlendMode -> function table")
+                arms = found
+    if arms is None:
+        raise Unsupported("no BlendMode -> blend function table (a match with one `BlendMode::V => function` arm per mode) found in src/")
     fns = dict(arms)
     out = {}
     for i, v in sorted(ids.items()):
@@ -1036,6 +1061,8 @@ def translate(srcdir):
             raise Unsupported("recursion through " + name)
         if name not in fns:
             raise Unsupported("blend function %s not found in blend.rs" % name)
+        if "unsupported" in fns[name]:
+            raise Unsupported("function %s (needed by the blend functions): %s" % (name, fns[name]["unsupported"]))
         text, calls = tr.function(fns[name])
         for c in sorted(calls):
             visit(c, stack + [name])
